@@ -20,6 +20,11 @@ func (s *Store) maxSizeEnforcer(maxSize int64) {
 			}
 			// Add message to all.
 			m := md.msg
+			if m.removed {
+				// Deleted before the enforcer heard of it, nothing to track.
+				close(md.done)
+				continue
+			}
 			el := all.PushBack(m)
 			m.el = el
 			curSize += int64(m.Size())
@@ -28,9 +33,11 @@ func (s *Store) maxSizeEnforcer(maxSize int64) {
 				el := all.Front()
 				all.Remove(el)
 				m := el.Value.(*Message)
-				if s.removeMessage(m.mailbox, m.id) != nil {
-					curSize -= int64(m.Size())
-				}
+				m.el = nil
+				// Everything in all is counted in curSize, whether or not a concurrent delete
+				// already took the message out of its mailbox.
+				curSize -= int64(m.Size())
+				s.removeMessage(m.mailbox, m.id)
 			}
 			close(md.done)
 		case md, ok := <-s.remove:
@@ -39,9 +46,14 @@ func (s *Store) maxSizeEnforcer(maxSize int64) {
 			}
 			// Remove message from all.
 			m := md.msg
-			el := all.Remove(m.el)
-			if el != nil {
+			if m.el != nil {
+				all.Remove(m.el)
+				m.el = nil
 				curSize -= int64(m.Size())
+			} else {
+				// Not tracked: either already evicted, or deleted before its delivery was
+				// announced; remember that so the late announcement is ignored.
+				m.removed = true
 			}
 			close(md.done)
 		}
